@@ -15,6 +15,7 @@ mod val;
 mod p_clvm;
 mod corpus;
 mod p_history;
+mod p_includes;
 mod p_atomic;
 
 use serde_json::{json, Value};
@@ -26,6 +27,7 @@ pub fn handle(job: &Value) -> Value {
         "rich" => ops_rich::op_rich(job),
         "print" => ops_print::op_print(job),
         "compile" => ops_compile::op_compile(job),
+        "deps" => p_includes::op_deps(job),
         "ping" => json!({"pong": true}),
         other => json!({"error": format!("unknown op {other}")}),
     }
@@ -42,6 +44,7 @@ fn main() {
         "worker" => pool::worker_main(handle),
         "replay-clvm" => p_clvm::replay(&rest),
         "drive-clvm" => p_clvm::drive(&rest),
+        "drive-includes" => p_includes::drive(&rest),
         "c05-child" => p_history::child(&rest),
         "drive-history" => p_history::drive(&rest),
         "c19-child" => p_atomic::child(&rest),
